@@ -256,6 +256,9 @@ class Interp:
         return bool(v)
 
     def binop(self, op, a, b, node):
+        for x in (a, b):
+            if isinstance(x, Rec) and "_binop" in x.attrs:
+                return x.attrs["_binop"](self, op, a, b, node)
         try:
             return _BIN[op](a, b)
         except Exception:
@@ -290,6 +293,8 @@ class Interp:
             if isinstance(n.op, ast.Not):
                 return not self.truth(v, n.operand)
             if isinstance(n.op, ast.USub):
+                if isinstance(v, Rec):
+                    return Sym("Mul", (-1, v))
                 return -v
             if isinstance(n.op, ast.UAdd):
                 return v
@@ -324,7 +329,7 @@ class Interp:
                 self.unsupported(n)
             a, b = self.ev(n.left, L), self.ev(n.right, L)
             if isinstance(n.op, ast.Div):
-                if isinstance(a, Sym) or isinstance(b, Sym):
+                if isinstance(a, (Sym, Rec)) or isinstance(b, (Sym, Rec)):
                     return Sym("Div", (a, b))
                 self.unsupported(n, "true division")
             return self.binop(type(n.op), a, b, n)
